@@ -375,8 +375,13 @@ func registerVerif(p *Program) {
 		return quiesceRetry{}
 	})
 	p.reg("verif:verifSched", func(e *Exec, g *G, a []Value) Value {
-		n := int(a[0].(*Term).Val)
-		e.schedFork = n > 0
+		n := int(a[0].(*Term).SVal())
+		// n > 0: fork the schedule at blocking points and allow n preemptions at sync points;
+		// n < 0: fork at blocking points only; 0: deterministic run-to-block
+		e.schedFork = n != 0
+		if n < 0 {
+			n = 0
+		}
 		e.maxPreempt = n
 		return nil
 	})
@@ -483,7 +488,13 @@ func (e *Exec) obligation(label string, c *Term) {
 	r2 := e.sol.Check(c)
 	e.sol.Pop()
 	if r2 != RSat {
-		panic(pathEnd{"assert-fails-always"})
+		// the assertion fails on every input of this path: keep going so that later
+		// assertions of the harness are still evaluated (they may be the ones that replay)
+		e.failedAlways++
+		if e.failedAlways > 20 {
+			panic(pathEnd{"assert-fails-always"})
+		}
+		return
 	}
 	e.assume(c)
 }
